@@ -33,6 +33,13 @@ DOCUMENTED = {"OnlyOneCodeError", "KeyFormatError", "MustChooseNameplateFirstErr
               "AlreadyChoseWordsError"}
 
 
+def readable(cl):
+    """frames queued for this client can be delivered now: connected, something queued, Twisted still reading
+    (no stopService() pending) and the websocket not in its closing handshake"""
+    return (cl.conn is not None and bool(cl.conn.s2c) and not (cl.svc.stopping is not None and not cl.svc.stopping.called)
+            and not getattr(cl.conn, "closing", False))
+
+
 class Observer:
     """Watches client `ci` of a World and produces (model line, expected line) per op."""
 
@@ -245,7 +252,7 @@ class Observer:
                 self.record(line, r)
             return r
         if k == "s2c":
-            if c.conn is None or not c.conn.s2c or (c.svc.stopping is not None and not c.svc.stopping.called):
+            if not readable(c):
                 return "noop"
             line = self.classify_frame(c.conn.s2c[0])
             had_key = c.boss._R._key is not None
@@ -268,11 +275,11 @@ class Observer:
                     line = " ".join(parts)
                 self.record(line, self._outcome(r, n_int))
             return r
-        if k in ("open", "drop", "svc_stopped", "fail_initial", "ws_fail", "tcp_up"):
+        if k in ("open", "drop", "svc_stopped", "fail_initial", "ws_fail", "tcp_up", "ws_closing"):
             r = W.do(op)
             if r != "noop":
                 line = {"open": "open", "drop": "drop", "svc_stopped": "svcstopped", "fail_initial": "failinitial",
-                        "ws_fail": "wsfail", "tcp_up": "tcpup"}[k]
+                        "ws_fail": "wsfail", "tcp_up": "tcpup", "ws_closing": "wsclosing"}[k]
                 self.record(line, self._outcome(r, n_int))
             return r
         if k == "inject" and op[4] == "REFLECT":
@@ -290,7 +297,7 @@ class Observer:
                 if cl.conn is not None and cl.conn.c2s:
                     self.do(["c2s", i])
                     moved = True
-                if cl.conn is not None and cl.conn.s2c and not (cl.svc.stopping is not None and not cl.svc.stopping.called):
+                if readable(cl):
                     self.do(["s2c", i])
                     moved = True
                 if cl.eq._calls:
@@ -351,13 +358,16 @@ def finish(W, ob, ops, do_close=True, rounds=6):
         progressed = False
         for cl in W.clients:
             i = cl.index
+            if cl.conn is not None and getattr(cl.conn, "closing", False):
+                emit(["drop", i])              # a closing websocket finally goes away
+                progressed = True
             if cl.conn is None and cl.svc.started and cl.svc.stopping is None:
                 emit(["open", i])
                 progressed = True
             if cl.conn is not None and cl.conn.c2s:
                 emit(["c2s", i])
                 progressed = True
-            if cl.conn is not None and cl.conn.s2c and not (cl.svc.stopping is not None and not cl.svc.stopping.called):
+            if readable(cl):
                 emit(["s2c", i])
                 progressed = True
             if cl.svc.stopping is not None and not cl.svc.stopping.called:
@@ -372,13 +382,16 @@ def finish(W, ob, ops, do_close=True, rounds=6):
         emit(["api", 0, "close"])
     for _ in range(rounds * 40):
         progressed = False
+        if c0.conn is not None and getattr(c0.conn, "closing", False):
+            emit(["drop", 0])
+            progressed = True
         if c0.conn is None and c0.svc.started:
             emit(["open", 0])
             progressed = True
         if c0.conn is not None and c0.conn.c2s:
             emit(["c2s", 0])
             progressed = True
-        if c0.conn is not None and c0.conn.s2c and not (c0.svc.stopping is not None and not c0.svc.stopping.called):
+        if readable(c0):
             emit(["s2c", 0])
             progressed = True
         if c0.svc.stopping is not None and not c0.svc.stopping.called:
@@ -481,7 +494,7 @@ def guided(seed, n_ops, profile, welcome_error=None, finish_run=False):
                             emit(["open", p]); moved = True
                         if cp.conn is not None and cp.conn.c2s:
                             emit(["c2s", p]); moved = True
-                        if cp.conn is not None and cp.conn.s2c and not (cp.svc.stopping is not None and not cp.svc.stopping.called):
+                        if readable(cp):
                             emit(["s2c", p]); moved = True
                         if cp.eq._calls:
                             emit(["turn", p]); moved = True
@@ -497,7 +510,7 @@ def guided(seed, n_ops, profile, welcome_error=None, finish_run=False):
             if c0.conn is not None:
                 if c0.conn.c2s:
                     choices += [["c2s", 0]] * 8
-                if c0.conn.s2c and not (c0.svc.stopping is not None and not c0.svc.stopping.called):
+                if readable(c0):
                     choices += [["s2c", 0]] * 8
                 pdrop = 3 if profile == "drops" else 1
                 # in-flight commands lost: drop more readily while the client has written several
@@ -512,6 +525,12 @@ def guided(seed, n_ops, profile, welcome_error=None, finish_run=False):
                 # and still makes progress between (bursts of) losses
                 if st.setdefault("drops", 0) >= st["drop_budget"]:
                     pdrop = 1 if rng.random() < 0.05 else 0
+                if getattr(c0.conn, "closing", False):
+                    pdrop = max(pdrop, 4)            # a closing websocket is soon gone
+                elif pdrop and rng.random() < 0.3:
+                    # … or the loss is a graceful one: the server begins the closing handshake first, and API
+                    # calls can fall into the window before the loss is reported
+                    choices += [["ws_closing", 0]] * 2
                 choices += [["drop", 0]] * pdrop
                 if len(W.msg_frames(0)) >= 1 and rng.random() < 0.3:
                     choices += [["dupmsg", 0, rng.randrange(4)]]
@@ -691,6 +710,15 @@ def connection_corpus():
                                   ["api", 0, "close"], ["pump"]] + end, npeers=0, profile="conn:later-handshake-fails:" + name))
         out.append(dict(ops=st + [["api", 0, "close"], ["tcp_up", 0], ["open", 0], ["pump"]] + end, npeers=0,
                         profile="conn:close-before-any-connection:" + name))
+        out.append(dict(ops=st + [["open", 0], ["pump"], ["ws_closing", 0], ["api", 0, "close"], ["drop", 0]] + end, npeers=0,
+                        profile="conn:close-in-closing-window:" + name))
+        out.append(dict(ops=[["open", 0], ["pump"], ["ws_closing", 0]] + st + [["api", 0, "send", "00"], ["drop", 0], ["open", 0], ["pump"],
+                                                                           ["api", 0, "close"], ["pump"]] + end, npeers=0,
+                        profile="conn:code-and-send-in-closing-window:" + name))
+    both = [["api", 0, "set_code", code], ["api", 1, "set_code", code], ["open", 0], ["open", 1], ["pump"]]
+    out.append(dict(ops=both + [["ws_closing", 0], ["api", 0, "send", "00"], ["api", 0, "send", "0101"], ["drop", 0], ["open", 0], ["pump"],
+                                ["api", 0, "send", "020202"], ["pump"], ["api", 0, "close"], ["pump"], ["svc_stopped", 0], ["finish"]],
+                    npeers=1, profile="conn:sends-in-closing-window"))
     return out
 
 
